@@ -123,62 +123,121 @@ def run(chk):
                 if d:
                     chk.disagree("Reader.Model.read_many vs hy.read_many", ent["prefix"], d, ires[0])
 
+    from hy.reader.hy_reader import HyReader
+    shared = HyReader()
+    shared_prev = None
     n_prog = 6000 if thorough else 420
     n_repl = 600 if thorough else 60
     done = 0
-    tries = 0
-    while done < n_prog and tries < 3 * n_prog:
-        tries += 1
-        p = gen.program()
-        text, r = rc.render(p)
-        full = impl.read_many(text)
-        tflat, _ = rc.render(p, "flat")
-        if full[0] != "Ok" or len(text) > 400 or impl.read_many(tflat)[0] != "Ok":
-            chk.count("generator-invalid-or-long")
-            continue
-        done += 1
-        vfull = [rc.value_only(rc.canon_impl(m)) for m in full[1]]
-        ntop = 0
-        for k in range(len(text) + 1):
-            prefix = text[:k]
-            lab = r.labels[k]
-            if lab[0] == "top":
-                ntop = lab[1]
-            ires = impl.read_many(prefix)
-            chk.count("label:" + lab[0] + (":" + lab[1] if lab[0] == "open" and lab[1] else ""))
-            chk.case(prefix, nontrivial=0 < k < len(text),
-                     sample={"prefix": prefix[-50:], "label": lab, "outcome": ires[0]} if (done * 131 + k) % 3001 == 5 else None)
-            obs = ires[0] + (": " + ires[1] if ires[0] in ("Lex", "Premature") else "")
-            if ires[0] in ("Other", "Timeout"):
-                chk.fail("foreign-exception", {"prefix": prefix, "text": text}, repr(ires), "a reader error or models", how(prefix))
-            elif lab[0] == "top":
-                if ires[0] != "Ok":
-                    chk.fail("boundary-not-readable", {"prefix": prefix, "text": text}, obs, "%d forms" % lab[1], how(prefix))
-                else:
-                    v = [rc.value_only(rc.canon_impl(m)) for m in ires[1]]
+    try:
+        tries = 0
+        while done < n_prog and tries < 3 * n_prog:
+            tries += 1
+            p = gen.program()
+            text, r = rc.render(p)
+            full = impl.read_many(text)
+            tflat, _ = rc.render(p, "flat")
+            if full[0] != "Ok" or len(text) > 400 or impl.read_many(tflat)[0] != "Ok":
+                chk.count("generator-invalid-or-long")
+                continue
+            done += 1
+            vfull = [rc.value_only(rc.canon_impl(m)) for m in full[1]]
+            ntop = 0
+            for k in range(len(text) + 1):
+                prefix = text[:k]
+                lab = r.labels[k]
+                if lab[0] == "top":
+                    ntop = lab[1]
+                ires = impl.read_many(prefix)
+                chk.count("label:" + lab[0] + (":" + lab[1] if lab[0] == "open" and lab[1] else ""))
+                chk.case(prefix, nontrivial=0 < k < len(text),
+                         sample={"prefix": prefix[-50:], "label": lab, "outcome": ires[0]} if (done * 131 + k) % 3001 == 5 else None)
+                obs = ires[0] + (": " + ires[1] if ires[0] in ("Lex", "Premature") else "")
+                if ires[0] in ("Other", "Timeout"):
+                    chk.fail("foreign-exception", {"prefix": prefix, "text": text}, repr(ires), "a reader error or models", how(prefix))
+                elif lab[0] == "top":
+                    if ires[0] != "Ok":
+                        chk.fail("boundary-not-readable", {"prefix": prefix, "text": text}, obs, "%d forms" % lab[1], how(prefix))
+                    else:
+                        v = [rc.value_only(rc.canon_impl(m)) for m in ires[1]]
+                        if v != vfull[:lab[1]]:
+                            chk.fail("boundary-wrong-forms", {"prefix": prefix, "text": text}, v, vfull[:lab[1]], how(prefix))
+                elif lab[0] == "open":
+                    if ires[0] != "Premature":
+                        chk.fail("open-not-premature", {"prefix": prefix, "text": text, "why": lab[1]}, obs,
+                                 "PrematureEndOfInput", how(prefix))
+                # one reader object is reused for many sources (the REPL keeps one for the session; read_many takes
+                # reader=): what a source reads as must not depend on what the same reader read -- or failed to read -- before
+                if ires[0] in ("Ok", "Lex", "Premature"):
+                    sres = impl.read_many(prefix, reader=shared)
+                    same = sres[0] == ires[0] and (sres[0] != "Ok" or
+                                                   [rc.value_only(rc.canon_impl(m)) for m in sres[1]] ==
+                                                   [rc.value_only(rc.canon_impl(m)) for m in ires[1]])
+                    if not same:
+                        chk.fail("reader-reuse", {"prefix": prefix, "read_before_with_the_same_reader": shared_prev},
+                                 sres[0] + (": " + sres[1] if sres[0] in ("Lex", "Premature") else ""),
+                                 obs + " (as with a fresh reader)",
+                                 "R = hy.HyReader(); list(hy.read_many(%r, reader=R)) [fails]; list(hy.read_many(%r, reader=R))"
+                                 % (shared_prev, prefix))
+                    shared_prev = prefix
+                # model vs implementation on every prefix
+                if model is not None and ires[0] in ("Ok", "Lex", "Premature"):
+                    mres = model.read_many(prefix)
+                    d = rc.compare(prefix, mres, ires, oracles)
+                    if d:
+                        chk.disagree("Reader.Model.read_many vs hy.read_many", prefix, d, ires[0])
+                # the REPL asks for more input exactly when the reader reports a premature end.  The REPL compiles each
+                # form before it reads the next, so this is observed where no complete form precedes the cut (a
+                # compile error in an earlier form would end the input before the reader reaches the end) or the
+                # reader does not report a premature end at all.
+                if done <= n_repl and ires[0] in ("Ok", "Lex", "Premature") and (k % 3 == done % 3) \
+                        and (ntop == 0 or ires[0] != "Premature"):
+                    more = repl.wants_more(prefix)
+                    chk.count("repl:" + str(more))
+                    if more != (ires[0] == "Premature"):
+                        chk.fail("repl-continuation", {"prefix": prefix}, "runsource returned %r, reader: %s" % (more, ires[0]),
+                                 "more input wanted iff PrematureEndOfInput", "hy.REPL().runsource(%r)" % prefix)
+        # user-defined reader macros that take their argument with Reader.getn / chars / peeking / parse_one_form:
+        # a cut inside such a call is inside an unclosed construct (oracle only: user macros are outside the model)
+        mgen = rc.Gen(rng, fstrings=False, depth=3, rmacros=True)
+        mdone = 0
+        mtries = 0
+        n_mac = 2500 if thorough else 150
+        while mdone < n_mac and mtries < 3 * n_mac:
+            mtries += 1
+            p = mgen.program()
+            text, r = rc.render(p)
+            if "#R" not in text and "#T" not in text and "#|" not in text and "#K" not in text and "#P" not in text:
+                continue
+            full = impl.read_many(text, reader=rc.macro_reader())
+            tflat, _ = rc.render(p, "flat")
+            if full[0] != "Ok" or len(text) > 300 or impl.read_many(tflat, reader=rc.macro_reader())[0] != "Ok":
+                chk.count("macro:generator-invalid-or-long")
+                continue
+            mdone += 1
+            vfull = [rc.value_only(rc.canon_impl(m)) for m in full[1]]
+            for k in range(len(text) + 1):
+                prefix = text[:k]
+                lab = r.labels[k]
+                ires = impl.read_many(prefix, reader=rc.macro_reader())
+                chk.count("macro-label:" + lab[0])
+                chk.case(("macro", prefix), nontrivial=0 < k < len(text))
+                obs = ires[0] + (": " + ires[1] if ires[0] in ("Lex", "Premature") else "")
+                mhow = "R = props.reader_common.macro_reader(); list(hy.read_many(%r, reader=R))" % prefix
+                if ires[0] in ("Other", "Timeout"):
+                    chk.fail("foreign-exception", {"prefix": prefix, "text": text, "reader": "macro_reader"}, repr(ires),
+                             "a reader error or models", mhow)
+                elif lab[0] == "top":
+                    v = [rc.value_only(rc.canon_impl(m)) for m in ires[1]] if ires[0] == "Ok" else obs
                     if v != vfull[:lab[1]]:
-                        chk.fail("boundary-wrong-forms", {"prefix": prefix, "text": text}, v, vfull[:lab[1]], how(prefix))
-            elif lab[0] == "open":
-                if ires[0] != "Premature":
-                    chk.fail("open-not-premature", {"prefix": prefix, "text": text, "why": lab[1]}, obs,
-                             "PrematureEndOfInput", how(prefix))
-            # model vs implementation on every prefix
-            if model is not None and ires[0] in ("Ok", "Lex", "Premature"):
-                mres = model.read_many(prefix)
-                d = rc.compare(prefix, mres, ires, oracles)
-                if d:
-                    chk.disagree("Reader.Model.read_many vs hy.read_many", prefix, d, ires[0])
-            # the REPL asks for more input exactly when the reader reports a premature end.  The REPL compiles each
-            # form before it reads the next, so this is observed where no complete form precedes the cut (a
-            # compile error in an earlier form would end the input before the reader reaches the end) or the
-            # reader does not report a premature end at all.
-            if done <= n_repl and ires[0] in ("Ok", "Lex", "Premature") and (k % 3 == done % 3) \
-                    and (ntop == 0 or ires[0] != "Premature"):
-                more = repl.wants_more(prefix)
-                chk.count("repl:" + str(more))
-                if more != (ires[0] == "Premature"):
-                    chk.fail("repl-continuation", {"prefix": prefix}, "runsource returned %r, reader: %s" % (more, ires[0]),
-                             "more input wanted iff PrematureEndOfInput", "hy.REPL().runsource(%r)" % prefix)
+                        chk.fail("boundary-wrong-forms", {"prefix": prefix, "text": text, "reader": "macro_reader"}, v,
+                                 vfull[:lab[1]], mhow)
+                elif lab[0] == "open" and ires[0] != "Premature":
+                    chk.fail("open-not-premature", {"prefix": prefix, "text": text, "why": lab[1], "reader": "macro_reader"}, obs,
+                             "PrematureEndOfInput", mhow)
+        chk.extra["macro_programs"] = mdone
+    except rc.TooManyTimeouts:
+        chk.notes.append("stopped generating after %d reads that did not terminate" % rc.MAX_TIMEOUTS)
     if model:
         model.close()
     chk.extra["programs"] = done
